@@ -2,6 +2,7 @@ package props
 
 import (
 	"astverif/crcgate"
+	"astverif/itersafe"
 	"astverif/layout"
 	"astverif/ownership"
 	"astverif/tables"
@@ -36,6 +37,12 @@ func c09(c *Ctx) {
 	c09Lengths(c)
 	// "never a silently altered table": a delivered table does not alias the pooled payload buffer (rule S3 of C16)
 	r.Floor("S3", "borrowed/owned byte-slice source sites", ownership.BorrowTaint(c.P, r), 10)
+	// "the unmodified table, an error, or nothing": the body of a section is parsed BEFORE its CRC_32 is checked, so a
+	// corrupted section reaches every table and descriptor parser; none of them may panic or spin on it (engine C — rules
+	// P1–P4, P6 of C03 — on everything reachable from parsePSIData)
+	ics := itersafe.New(c.P)
+	ics.Run(r, []string{"parsePSIData"})
+	r.Floor("P1", "fetch/seek/skip length sites below parsePSIData", r.Counters["sites_P1"], 40)
 }
 
 // c09Lengths is rule (e): section_length = the bytes emitted after it, proven level by level (assume-guarantee:
